@@ -70,6 +70,7 @@ type (
 		taskCallCount        map[string]*int32
 		mkdirMutexMap        map[string]*sync.Mutex
 		executionHashes      map[string]context.Context
+		executionWaits       map[string][]string // which executions the calls made by an execution wait for
 		executionHashesMutex sync.Mutex
 		watchedDirs          *xsync.MapOf[string, bool]
 	}
